@@ -4,7 +4,7 @@ import random
 
 import mcommon
 import vlib
-from mcommon import prepare, replay  # noqa
+from mcommon import prepare  # noqa
 
 TRUSTED = ["pointer provenance / aliasing of the slab views is not modelled: only extents, disjointness, alignment, initialisation order and index bounds",
            "cfg(nucleo_verif) facade nucleo_matcher::verif::layout_views recomputes the views with the crate's own MatrixLayout::new + fieds_from_ptr on a dangling base pointer"]
@@ -101,8 +101,26 @@ def run(ctx, broken):
     res["distinct_nontrivial"] = nontriv + len(seen)
     res["rule"] = ("(1) layout: %d (haystack_len, needle_len, repr) triples around every guard of MatrixSlab::alloc (cells = 102400, needle = 2048, haystack = 65535, layout size = slab size) plus random ones; the extents the real code hands out (cfg facade) are compared with the model's layout_offsets/view_lengths and checked to lie inside the slab, disjoint and aligned; non-trivial = accepted by alloc. (2) the matcher streams of C01 (all six algorithms, limit-sized inputs, needles of 2500-4000 chars, late starts with prefer_prefix): every call on ONE shared Matcher in file order and again on a fresh Matcher per call; a panic, an overflow (debug profile) or any difference is a failure; thorough adds the release profile." % len(ll))
     res["samples"] = [{"layout_case": ll[k], "implementation": ri[k]} for k in range(0, len(ll), max(1, len(ll) // 4))][:4]
+    # (3) Atom / Pattern level: one shared Matcher whose ignore_case / normalize flags are left over from earlier calls
+    #     (and flipped between calls) must answer like a fresh one - reduced run of the C15 stream, its `state`,
+    #     `panic` and (for scrambled calls) indices clauses count for this property
+    import c15
+    fs, ev = c15.subset_failures(ctx, {"state", "panic"}, 2500)
+    fs2, _ = c15.subset_failures(ctx, {"atom_indices", "indices", "atom", "pattern"}, 2500, need_scramble=True)
+    res["failures"] += [dict(f, cls_origin="C15 stream") for f in fs + fs2]
+    res["evaluations"] += ev
+    res["rule"] += " (3) Atom/Pattern level on one shared Matcher with left-over and scrambled ignore_case/normalize flags (reduced C15 stream): panics, the state clause and any result that differs from the nominal configuration's."
     return res
 
 
 def known(f, kf):
     return None
+
+
+def replay(path):
+    import json
+    f = (json.load(open(path)).get("failure") or {})
+    if f.get("cls_origin") == "C15 stream":
+        import c15
+        return c15.replay(path)
+    return mcommon.replay(path)
